@@ -1159,3 +1159,98 @@ def check_grok(prop, tier, seed):
     assumptions = ["the reference matcher covers rules of the shape `%{P1:f} %{P2:g}` (P1 without spaces), not the whole grok pattern library"]
     mine = [v for v in agg["viols"] if v["prop"] == prop]
     return verdict(prop, tier, seed, "exploration", coverage, mine, assumptions, t0, replay_writer)
+
+
+# ---------------------------------------------------------------------------------------------
+# C27: crc against the parametrised model of Crc.tla (one message bit per TLC step), hmac against its definition over the real
+# hashes, published vectors and shape laws for md5 / sha1 / sha2 / sha3
+
+def check_digests(prop, tier, seed):
+    t0 = time.time()
+    wd = workdir(f"{prop}_{tier}")
+    build_harness()
+    U, gst, gtr = universes("GenCrc.tla", wd, ["CRC_NAMES"])
+    rnd = random.Random(seed)
+    cases = []
+
+    def add(name, fn, exprs, inp):
+        ev = {k: plain(v) for k, v in inp.items() if isinstance(v, dict) and "t" in v}
+        cases.append({"worker": "eval", "f": fn, "args": [], "ret": [], "src": f"{name}:{fn}", "law": {"name": name, "fn": fn}, "inp": inp,
+                      "event": {"t": "obj", "m": ev}, "exprs": exprs})
+    lb = lambda bs: {"t": "bytes", "c": list(bs)}
+    rb = lambda n: [rnd.getrandbits(8) for _ in range(n)]
+    n_msgs = 5 if tier == "quick" else 30
+    for alg in U["CRC_NAMES"]:
+        add("crc", alg, {}, {"alg": alg, "x": lb(b"123456789"), "published": True})
+        msgs = [b"", b"123456789", b"a", bytes([0]), bytes([0, 0, 0, 0]), bytes([255] * 5)] + [bytes(rb(rnd.randint(1, 14))) for _ in range(n_msgs)]
+        for m in msgs:
+            add("crc", alg, {"out": f'crc!(.x, algorithm: "{alg}")'}, {"alg": alg, "x": lb(m), "published": False})
+    H = {"SHA1": ("sha1!({})", 64), "SHA-224": ('sha2!({}, variant: "SHA-224")', 64), "SHA-256": ('sha2!({}, variant: "SHA-256")', 64),
+         "SHA-384": ('sha2!({}, variant: "SHA-384")', 128), "SHA-512": ('sha2!({}, variant: "SHA-512")', 128)}
+    for algo, (h, block) in H.items():
+        for klen in [0, 1, 20, block - 1, block]:
+            for _ in range(3 if tier == "quick" else 20):
+                key = rb(klen)
+                padded = key + [0] * (block - len(key))
+                msg = rb(rnd.choice([0, 1, 3, 55, 56, 64, 100, 200]))
+                inner = "decode_base16!(" + h.format("(string!(.ki) + string!(.m))") + ")"
+                add("hmac_def", f"hmac({algo})", {"mac": f'hmac!(.m, .key, algorithm: "{algo}")', "def": "decode_base16!(" + h.format(f"(string!(.ko) + {inner})") + ")"},
+                    {"key": lb(key), "m": lb(msg), "ki": lb([b ^ 0x36 for b in padded]), "ko": lb([b ^ 0x5c for b in padded]), "block": block})
+    FAM = {"md5": ("md5!({})", ["md5"]), "sha1": ("sha1!({})", ["sha1"]),
+           "sha2": ('sha2!({}, variant: "VAR")', ["SHA-224", "SHA-256", "SHA-384", "SHA-512", "SHA-512/224", "SHA-512/256"]),
+           "sha3": ('sha3!({}, variant: "VAR")', ["SHA3-224", "SHA3-256", "SHA3-384", "SHA3-512"])}
+    for fam, (tmpl, variants) in FAM.items():
+        for v in variants:
+            e = tmpl.replace("VAR", v)
+            for m in ["", "abc", "message digest"]:
+                if (v, m) in {("md5", ""), ("md5", "abc"), ("md5", "message digest"), ("sha1", ""), ("sha1", "abc"), ("SHA-224", ""), ("SHA-224", "abc"), ("SHA-256", ""), ("SHA-256", "abc"),
+                              ("SHA-384", ""), ("SHA-384", "abc"), ("SHA-512", ""), ("SHA-512", "abc"), ("SHA3-224", ""), ("SHA3-256", ""), ("SHA3-256", "abc"), ("SHA3-384", ""), ("SHA3-512", "")}:
+                    add("digest_vector", f"{fam}({v})", {"out": e.format(".x")}, {"f": v, "x": lstr(m)})
+            for _ in range(20 if tier == "quick" else 300):
+                x = rb(rnd.randint(0, 80))
+                y = list(x)
+                if y and rnd.random() < 0.8:
+                    y[rnd.randrange(len(y))] ^= 1 << rnd.randrange(8)
+                elif rnd.random() < 0.5:
+                    y = y + [0]
+                add("digest_shape", f"{fam}({v})", {"x": e.format(".x"), "y": e.format(".y")}, {"f": v, "x": lb(x), "y": lb(y)})
+        if len(variants) > 1:
+            for _ in range(10 if tier == "quick" else 100):
+                add("digest_variants", fam, {v: tmpl.replace("VAR", v).format(".x") for v in variants}, {"x": lb(rb(rnd.randint(0, 40)))})
+    rnd.shuffle(cases)
+    log(f"[{prop}] {len(cases)} digest cases ({time.time()-t0:.0f}s)")
+    cpath = os.path.join(wd, "cases.ndjson")
+    with open(cpath, "w") as f:
+        for c in cases:
+            f.write(json.dumps(c) + "\n")
+    run([VH, "calls", "--cases", cpath, "--out", os.path.join(wd, "tr"), "--shards", str(NCPU), "--deadline-ms", "10000"], cwd=wd, timeout=7200)
+    traces = [os.path.join(wd, f"tr.{i}.ndjson") for i in range(NCPU)]
+    agg = aggregate(validate(traces, wd, spec="CrcTrace.tla", cfg=TRACE_CFG))
+    cnt = agg["cnt"]
+    write_json(os.path.join(wd, "findings.json"), {"viols": agg["viols"][:500]})
+
+    def replay_writer(v):
+        with open(v["_file"]) as f:
+            line = f.readlines()[v["line"] - 1]
+        return {"engine": "C/digests", "record": json.loads(line)}
+
+    by = {}
+    for c in cases:
+        by[c["law"]["name"]] = by.get(c["law"]["name"], 0) + 1
+    coverage = {
+        "evaluations": cnt.get("laws", 0), "distinct_nontrivial": cnt.get("C27", 0),
+        "rule": "crc: every one of the 112 catalogue algorithms x {empty, '123456789', single bytes, zero and 0xFF runs, seeded random messages up to 14 bytes}: the "
+                "model register of Crc.tla is advanced one message bit per TLC step and the decimal rendering of the result compared with the real function's text; "
+                "the model itself is checked in the same run against the published check value of every algorithm (records `published`). hmac: every algorithm x key "
+                "lengths {0, 1, 20, block-1, block} x messages: equal to H((K xor opad) || H((K xor ipad) || m)) evaluated with the real hash functions, pads "
+                "recomputed by the spec. md5/sha1/sha2/sha3: published vectors, lower-case hex of the right length, different messages give different digests, "
+                "variants of a family never agree",
+        "samples": [{"law": c["law"], "inp": c["inp"]} for c in cases[:3]],
+        "states": gst + agg["states"], "transitions": gtr + agg["transitions"], "traces_validated_against_impl": cnt.get("laws", 0),
+        "model_self_checks_against_published_values": cnt.get("published", 0), "instances_per_law": by,
+    }
+    assumptions = ["CRC parameters and check values are the published catalogue's (transcribed into Crc.tla from the crc-catalog data)",
+                   "md5, sha1, sha2, sha3 have no model here beyond published vectors and shape/distinctness laws; xxhash and seahash are not decided",
+                   "hmac with keys longer than the block (hashed first) is not covered by the definitional law"]
+    mine = [v for v in agg["viols"] if v["prop"] == prop]
+    return verdict(prop, tier, seed, "exploration", coverage, mine, assumptions, t0, replay_writer)
